@@ -8,7 +8,7 @@ The invariant. Fix the FINAL `seen` map `T` of a top-level construction and a de
 * `SeenGood d s T`: every finished entry of `s` is `FG d`.
 * during the construction, for a call with input `seen = s` and output `s'`: the finished entries of `s'` are in `T`
   (`Ext`), the struct types under construction in `s` are finished in `T` (`Fin`) and contain the type being built
-  (`Path`; with `NoEmbedCycle` this is what excludes an embedded struct under construction).
+  (`Path`; with `NoEmbeddedCycle` this is what excludes an embedded struct under construction).
 `ACodec f d`: a call of `codecF f` whose input satisfies the invariant returns an encoder whose tree to depth `d` is
 `stdD d`, and keeps `SeenGood d`. Induction on the fuel `f`, for all `d`; the tree at depth `d + 1` uses the calls' trees
 at depth `d` (`codec_exp`), `SeenGood d` is threaded at the same depth (`codec_thread`). Back references to named
@@ -32,15 +32,23 @@ def SeenGood (env : Env) (d : Nat) (s T : Seen) : Prop :=
 def Ext (s T : Seen) : Prop := ∀ k fs, s.find k = some (.done fs) → T.find k = some (.done fs)
 
 def Fin (env : Env) (s T : Seen) : Prop :=
-  ∀ k, s.find k = some .building → IsStructKey env k → ∃ fs, T.find k = some (.done fs)
+  ∀ k r, s.find k = some (.building r) → IsStructKey env k → ∃ fs, T.find k = some (.done fs)
 
-def Path (env : Env) (s : Seen) (t : TD) : Prop :=
-  ∀ k, s.find k = some .building → IsStructKey env k → Reach env k.1 t
+/-- the root of a struct type under construction is a struct type under construction -/
+def RootOK (env : Env) (s : Seen) : Prop :=
+  ∀ k r, s.find k = some (.building r) → IsStructKey env k → IsStructKey env r ∧ ∃ r', s.find r = some (.building r')
+
+def RootIn (env : Env) (s : Seen) (R : Key) : Prop := IsStructKey env R ∧ ∃ r', s.find R = some (.building r')
+
+/-- while fields are listed for the root `R`, in the struct type `S`: the struct types under construction that are
+marked with `R` are the chain of embedded structs from `R` to `S` -/
+def Chain (env : Env) (s : Seen) (R : Key) (S : TD) : Prop :=
+  ∀ k, s.find k = some (.building R) → IsStructKey env k → EmbReach env k.1 S
 
 def MainFor (env : Env) (d : Nat) (t : TD) (a : Bool) : Prop :=
   expandN d env (choose env t a).2 (norm (choose env t a).1) = stdD d env t a
 
-def MainLe (env : Env) (d : Nat) : Prop := ∀ d', d' ≤ d → ∀ t a, NoEmbedCycle env t → MainFor env d' t a
+def MainLe (env : Env) (d : Nat) : Prop := ∀ d', d' ≤ d → ∀ t a, NoEmbeddedCycle env t → MainFor env d' t a
 
 structure Ctx (env : Env) (T : Seen) (d : Nat) : Prop where
   less : ∀ d', d' < d → SeenGood env d' T T
@@ -50,36 +58,36 @@ theorem Ctx.mono {env : Env} {T : Seen} {d d' : Nat} (h : Ctx env T d) (hle : d'
   ⟨fun d'' hd => h.less d'' (by omega), fun d'' hd => h.main d'' (by omega)⟩
 
 def ACodec (env : Env) (f d : Nat) : Prop :=
-  ∀ t a s c s' T, codecF f env t a s = some (c, s') → Ctx env T d → Ext s' T → Fin env s T → Path env s t →
-    NoEmbedCycle env t → SeenGood env d s T →
+  ∀ t a s c s' T, codecF f env t a s = some (c, s') → Ctx env T d → Ext s' T → Fin env s T → RootOK env s →
+    NoEmbeddedCycle env t → SeenGood env d s T →
     expandN d env T (norm c) = stdD d env t a ∧ SeenGood env d s' T
 
 def AStruct (env : Env) (f d : Nat) : Prop :=
-  ∀ t a s e s' T, structF f env t a s = some (e, s') → isStructKind (under env t) = true → Ctx env T d → Ext s' T →
-    Fin env s T → Path env s t → NoEmbedCycle env t → SeenGood env d s T →
+  ∀ t a root s e s' T, structF f env t a root s = some (e, s') → isStructKind (under env t) = true → Ctx env T d →
+    Ext s' T → Fin env s T → RootOK env s → (∀ R, root = some R → RootIn env s R ∧ Chain env s R t) →
+    NoEmbeddedCycle env t → SeenGood env d s T →
     SeenGood env d s' T ∧ ∀ fs, e = .done fs → FG env d T fs (t, a)
+
+def AList (env : Env) (f d : Nat) : Prop :=
+  ∀ t a R s fs s' T, listF f env t a R s = some (fs, s') → isStructKind (under env t) = true → Ctx env T d →
+    Ext s' T → Fin env s T → RootOK env s → RootIn env s R → Chain env s R t →
+    NoEmbeddedCycle env t → SeenGood env d s T →
+    SeenGood env d s' T ∧ FG env d T fs (t, a)
 
 theorem ext_of_evo {s s' T : Seen} (h : Ext s' T) (e : Evo s s') : Ext s T := fun k fs hk => h k fs (e.1 k fs hk)
 theorem fin_of_evo {env : Env} {s s' T : Seen} (h : Fin env s T) (e : Evo s s') : Fin env s' T :=
-  fun k hk hs => h k ((e.2 k).mp hk) hs
-theorem path_of_evo {env : Env} {s s' : Seen} {t : TD} (h : Path env s t) (e : Evo s s') : Path env s' t :=
-  fun k hk hs => h k ((e.2 k).mp hk) hs
-theorem path_child {env : Env} {s : Seen} {t c : TD} (h : Path env s t) (hc : Reach env t c) : Path env s c :=
-  fun k hk hs => reach_trans (h k hk hs) hc
-
-theorem struct_building (env : Env) (f : Nat) (t : TD) (a : Bool) (s s' : Seen)
-    (h : structF f env t a s = some (.building, s')) : s.find (t, a) = some .building := by
-  cases f with
-  | zero => simp [structF] at h
-  | succ f =>
-    rw [structF] at h
-    cases hf : s.find (t, a) with
-    | some e => simp [hf] at h; rw [h.1]
-    | none =>
-      simp only [hf] at h
-      cases hfl : fieldsF (codecF f env) (structF f env) env a (fieldsOf env t) (s.set (t, a) .building) with
-      | none => simp [hfl] at h
-      | some r => obtain ⟨fs, s2⟩ := r; simp [hfl] at h
+  fun k r hk hs => h k r ((e.2 k r).mp hk) hs
+theorem rootOK_of_evo {env : Env} {s s' : Seen} (h : RootOK env s) (e : Evo s s') : RootOK env s' := by
+  intro k r hk hs
+  obtain ⟨h1, r', h2⟩ := h k r ((e.2 k r).mp hk) hs
+  exact ⟨h1, r', (e.2 r r').mpr h2⟩
+theorem rootIn_of_evo {env : Env} {s s' : Seen} {R : Key} (h : RootIn env s R) (e : Evo s s') : RootIn env s' R := by
+  obtain ⟨h1, r', h2⟩ := h
+  exact ⟨h1, r', (e.2 R r').mpr h2⟩
+theorem chain_of_evo {env : Env} {s s' : Seen} {R : Key} {S : TD} (h : Chain env s R S) (e : Evo s s') :
+    Chain env s' R S := fun k hk hs => h k ((e.2 k R).mp hk) hs
+theorem embReach_step {env : Env} {a b c : TD} (h : EmbReach env a b) (hc : c ∈ embeds env b) : EmbReach env a c :=
+  .step h hc
 
 theorem stringify_state (codec : CodecFn) (env : Env) (a : Bool) (ft : TD) (c c' : Choice) (s s' : Seen)
     (h : stringifyF codec env a ft c s = some (c', s')) : s' = s ∨ ∃ p, codec ft a s = some (p, s') := by
@@ -96,20 +104,109 @@ theorem stringify_state (codec : CodecFn) (env : Env) (a : Bool) (ft : TD) (c c'
 
 /-! ## the fields of a struct type -/
 
-theorem fields_sem (env : Env) (f d : Nat) (hc : ACodec env f d) (hs : AStruct env f d) (S : TD) (a : Bool) (T : Seen)
-    (hctx : Ctx env T d) (hsafe : NoEmbedCycle env S) :
+theorem building_set_building (s : Seen) (key x r R : Key) (hk : s.find key = some (.building r))
+    (hx : ∃ r', s.find x = some (.building r')) : ∃ r', (s.set key (.building R)).find x = some (.building r') := by
+  by_cases hxe : x = key
+  · subst hxe; exact ⟨R, find_set_self _ _ _⟩
+  · rw [find_set_ne _ _ _ _ hxe]; exact hx
+
+/-- the embedded branch of `appendStructFields`: the promoted fields are the field list of the embedded type on its
+own — taken from the finished struct type, or listed a second time when it is under construction for another root;
+under construction for the SAME root would be a cycle of embedded structs -/
+theorem embedded_sem (env : Env) (f d : Nat) (hs : AStruct env f d) (hl : AList env f d) (S typ : TD) (b : Bool)
+    (R : Key) (T : Seen) (hctx : Ctx env T d) (hsafe : NoEmbeddedCycle env S) (hmem : typ ∈ embeds env S)
+    (hsk : isStructKind (under env typ) = true) (s s1 : Seen) (sub : CL)
+    (h : embeddedF (structF f env) (listF f env) typ b R s = some (sub, s1))
+    (hext : Ext s1 T) (hfin : Fin env s T) (hroot : RootOK env s) (hrin : RootIn env s R) (hchain : Chain env s R S)
+    (hgood : SeenGood env d s T) :
+    SeenGood env d s1 T ∧ FG env d T sub (typ, b) := by
+  have hreach := embeds_reach hmem
+  have hsafe' := noEmbedCycle_of_reach hsafe hreach
+  have hchain' : Chain env s R typ := fun k hk hks => .step (hchain k hk hks) hmem
+  unfold embeddedF at h
+  cases h1 : structF f env typ b (some R) s with
+  | none => simp [h1] at h
+  | some r1 =>
+    obtain ⟨e, s0⟩ := r1
+    simp only [h1] at h
+    cases e with
+    | done fs =>
+      simp at h
+      obtain ⟨rfl, rfl⟩ := h
+      obtain ⟨g1, hfg⟩ := hs typ b (some R) s _ s0 T h1 hsk hctx hext hfin hroot
+        (fun R' hR' => by cases hR'; exact ⟨hrin, hchain'⟩) hsafe' hgood
+      exact ⟨g1, hfg fs rfl⟩
+    | building r =>
+      obtain ⟨rfl, hfind⟩ := struct_building env f typ b (some R) s s0 r h1
+      simp only at h
+      by_cases hr : (r == R) = true
+      · -- excluded: a cycle of embedded structs
+        exfalso
+        have hrR : r = R := by simpa using hr
+        subst hrR
+        exact hsafe S typ (.refl S) hmem (hchain (typ, b) hfind hsk)
+      · have hr' : (r == R) = false := by simpa using hr
+        simp only [hr', Bool.false_eq_true, if_false] at h
+        cases h2 : listF f env typ b R (s0.set (typ, b) (.building R)) with
+        | none => simp [h2] at h
+        | some r2 =>
+          obtain ⟨fs, s2⟩ := r2
+          simp [h2] at h
+          obtain ⟨rfl, rfl⟩ := h
+          have evo2 := (JsonCodecChoiceEvo.main env f).2.2 _ _ _ _ _ _ h2
+          have hb2 : s2.find (typ, b) = some (.building R) := (evo2.2 _ _).mpr (find_set_self _ _ _)
+          have hext2 : Ext s2 T := by
+            intro k fs' hk
+            have hne : k ≠ (typ, b) := by intro e; subst e; rw [hb2] at hk; cases hk
+            apply hext; rw [find_set_ne _ _ _ _ hne]; exact hk
+          have hfin' : Fin env (s0.set (typ, b) (.building R)) T := by
+            intro k r' hk hks
+            by_cases hke : k = (typ, b)
+            · subst hke; exact hfin _ r hfind hks
+            · rw [find_set_ne _ _ _ _ hke] at hk; exact hfin k r' hk hks
+          have hroot' : RootOK env (s0.set (typ, b) (.building R)) := by
+            intro k r' hk hks
+            by_cases hke : k = (typ, b)
+            · subst hke
+              rw [find_set_self] at hk
+              cases hk
+              exact ⟨hrin.1, building_set_building s0 _ _ r _ hfind hrin.2⟩
+            · rw [find_set_ne _ _ _ _ hke] at hk
+              obtain ⟨h3, h4⟩ := hroot k r' hk hks
+              exact ⟨h3, building_set_building s0 _ _ r _ hfind h4⟩
+          have hrin' : RootIn env (s0.set (typ, b) (.building R)) R :=
+            ⟨hrin.1, building_set_building s0 _ _ r _ hfind hrin.2⟩
+          have hchain2 : Chain env (s0.set (typ, b) (.building R)) R typ := by
+            intro k hk hks
+            by_cases hke : k = (typ, b)
+            · subst hke; exact .refl _
+            · rw [find_set_ne _ _ _ _ hke] at hk; exact hchain' k hk hks
+          have hgood' : SeenGood env d (s0.set (typ, b) (.building R)) T := by
+            intro k fs' hk hks
+            by_cases hke : k = (typ, b)
+            · subst hke; rw [find_set_self] at hk; cases hk
+            · rw [find_set_ne _ _ _ _ hke] at hk; exact hgood k fs' hk hks
+          obtain ⟨g, hfg⟩ := hl typ b R _ fs s2 T h2 hsk hctx hext2 hfin' hroot' hrin' hchain2 hsafe' hgood'
+          refine ⟨?_, hfg⟩
+          intro k fs' hk hks
+          by_cases hke : k = (typ, b)
+          · subst hke; rw [find_set_self] at hk; cases hk
+          · rw [find_set_ne _ _ _ _ hke] at hk; exact g k fs' hk hks
+
+theorem fields_sem (env : Env) (f d : Nat) (hc : ACodec env f d) (hs : AStruct env f d) (hl : AList env f d)
+    (S : TD) (a : Bool) (R : Key) (T : Seen) (hctx : Ctx env T d) (hsafe : NoEmbeddedCycle env S) :
     ∀ (fl : FL) (s : Seen) (cl : CL) (s' : Seen),
-      fieldsF (codecF f env) (structF f env) env a fl s = some (cl, s') →
+      fieldsF (codecF f env) (structF f env) (listF f env) env a R fl s = some (cl, s') →
       (∀ ft, ft ∈ fieldTypes fl → ft ∈ children env S) → (∀ typ, typ ∈ embedsFL env fl → typ ∈ embeds env S) →
-      Ext s' T → Fin env s T → Path env s S → SeenGood env d s T →
+      Ext s' T → Fin env s T → RootOK env s → RootIn env s R → Chain env s R S → SeenGood env d s T →
       SeenGood env d s' T ∧
         (normCL cl).mapChoice (underEmbed (expandN d env T)) =
           stdFieldsWith (stdD d env) (stdEmbedded (stdD d env) env (embedFuel env S) [S]) env a fl
-  | .nil, s, cl, s', h, _, _, _, _, _, hgood => by
+  | .nil, s, cl, s', h, _, _, _, _, _, _, _, hgood => by
     simp [fieldsF] at h
     rw [← h.1, ← h.2]
     exact ⟨hgood, by simp [normCL, CL.mapChoice, stdFieldsWith]⟩
-  | .cons name emb str ft rest, s, cl, s', h, hft, hemb, hext, hfin, hpath, hgood => by
+  | .cons name emb str ft rest, s, cl, s', h, hft, hemb, hext, hfin, hroot, hrin, hchain, hgood => by
     have hftr : ∀ ft', ft' ∈ fieldTypes rest → ft' ∈ children env S :=
       fun ft' h' => hft ft' (by simp [fieldTypes, h'])
     have hembr : ∀ typ, typ ∈ embedsFL env rest → typ ∈ embeds env S := by
@@ -119,50 +216,44 @@ theorem fields_sem (env : Env) (f d : Nat) (hc : ACodec env f d) (hs : AStruct e
       split
       · exact List.mem_cons_of_mem _ h'
       · exact h'
+    have hEC := (JsonCodecChoiceEvo.main env f).1
+    have hES := (JsonCodecChoiceEvo.main env f).2.1
+    have hEL := (JsonCodecChoiceEvo.main env f).2.2
     unfold fieldsF at h
     simp only at h
     by_cases h0 : (emb && isStructKind (under env (peel ft))) = true
     · -- an embedded struct: its fields are promoted
       simp only [h0, if_true] at h
-      cases h1 : structF f env (peel ft) (a || isPtrKind ft) s with
+      cases h1 : embeddedF (structF f env) (listF f env) (peel ft) (a || isPtrKind ft) R s with
       | none => simp [h1] at h
       | some r1 =>
-        obtain ⟨e, s1⟩ := r1
+        obtain ⟨sub, s1⟩ := r1
         simp only [h1] at h
-        cases h2 : fieldsF (codecF f env) (structF f env) env a rest s1 with
+        cases h2 : fieldsF (codecF f env) (structF f env) (listF f env) env a R rest s1 with
         | none => simp [h2] at h
         | some r2 =>
           obtain ⟨r, s2⟩ := r2
           simp [h2] at h
           obtain ⟨hcl, hs'⟩ := h
           subst hs'
-          have evo1 := struct_evo env f _ _ s s1 e h1
-          have evo2 := fields_evo _ _ (JsonCodecChoiceEvo.main env f).1 (JsonCodecChoiceEvo.main env f).2 env a rest s1 r s2 h2
+          have evo1 := embedded_evo _ _ hES hEL _ _ R s s1 sub h1
+          have evo2 := fields_evo _ _ _ hEC hES hEL env a R rest s1 r s2 h2
           have hmem : peel ft ∈ embeds env S := hemb _ (by simp [embedsFL, h0])
           have hsk : isStructKind (under env (peel ft)) = true := by
             simp only [Bool.and_eq_true] at h0; exact h0.2
-          have hreach := embeds_reach hmem
-          obtain ⟨g1, hfg⟩ := hs (peel ft) (a || isPtrKind ft) s e s1 T h1 hsk hctx (ext_of_evo hext evo2) hfin
-            (path_child hpath hreach) (noEmbedCycle_of_reach hsafe hreach) hgood
-          obtain ⟨g2, heq⟩ := fields_sem env f d hc hs S a T hctx hsafe rest s1 r s2 h2 hftr hembr hext
-            (fin_of_evo hfin evo1) (path_of_evo hpath evo1) g1
+          obtain ⟨g1, hfg'⟩ := embedded_sem env f d hs hl S (peel ft) (a || isPtrKind ft) R T hctx hsafe hmem hsk s s1 sub h1
+            (ext_of_evo hext evo2) hfin hroot hrin hchain hgood
+          obtain ⟨g2, heq⟩ := fields_sem env f d hc hs hl S a R T hctx hsafe rest s1 r s2 h2 hftr hembr hext
+            (fin_of_evo hfin evo1) (rootOK_of_evo hroot evo1) (rootIn_of_evo hrin evo1) (chain_of_evo hchain evo1) g1
           refine ⟨g2, ?_⟩
-          cases e with
-          | building =>
-            -- excluded: the embedded struct type would contain the embedding struct
-            exfalso
-            have hb := struct_building env f _ _ s s1 h1
-            exact hsafe S (peel ft) (.refl S) hmem (hpath _ hb hsk)
-          | done fs' =>
-            have hfg' := hfg fs' rfl
-            unfold FG at hfg'
-            simp only at hfg'
-            rw [← stdEmbedded_eq_fields d env S (peel ft) (a || isPtrKind ft) hsafe hmem] at hfg'
-            simp only [stdFieldsWith, h0, if_true]
-            rw [← hcl, ← heq, ← hfg']
-            by_cases hp : isPtrKind ft = true
-            · simp only [hp, if_true, normCL_append, mapChoice_append, normCL_embed, mapChoice_underEmbed_embed]
-            · simp only [hp, if_false, normCL_append, mapChoice_append, Bool.false_eq_true]
+          unfold FG at hfg'
+          simp only at hfg'
+          rw [← stdEmbedded_eq_fields d env S (peel ft) (a || isPtrKind ft) hsafe hmem] at hfg'
+          simp only [stdFieldsWith, h0, if_true]
+          rw [← hcl, ← heq, ← hfg']
+          by_cases hp : isPtrKind ft = true
+          · simp only [hp, if_true, normCL_append, mapChoice_append, normCL_embed, mapChoice_underEmbed_embed]
+          · simp only [hp, if_false, normCL_append, mapChoice_append, Bool.false_eq_true]
     · -- an ordinary field
       have h0' : (emb && isStructKind (under env (peel ft))) = false := by simpa using h0
       simp only [h0', Bool.false_eq_true, if_false] at h
@@ -176,7 +267,7 @@ theorem fields_sem (env : Env) (f d : Nat) (hc : ACodec env f d) (hs : AStruct e
         | some r2 =>
           obtain ⟨c2, s2⟩ := r2
           simp only [h2] at h
-          cases h3 : fieldsF (codecF f env) (structF f env) env a rest s2 with
+          cases h3 : fieldsF (codecF f env) (structF f env) (listF f env) env a R rest s2 with
           | none => simp [h3] at h
           | some r3 =>
             obtain ⟨r, s3⟩ := r3
@@ -186,17 +277,17 @@ theorem fields_sem (env : Env) (f d : Nat) (hc : ACodec env f d) (hs : AStruct e
             have evo1 := codec_evo env f ft a s s1 c h1
             have evo2 : Evo s1 s2 := by
               split at h2
-              · exact stringify_evo _ (JsonCodecChoiceEvo.main env f).1 env a ft c c2 s1 s2 h2
+              · exact stringify_evo _ hEC env a ft c c2 s1 s2 h2
               · simp at h2; rw [← h2.2]; exact Evo.refl s1
-            have evo3 := fields_evo _ _ (JsonCodecChoiceEvo.main env f).1 (JsonCodecChoiceEvo.main env f).2 env a rest s2 r s3 h3
+            have evo3 := fields_evo _ _ _ hEC hES hEL env a R rest s2 r s3 h3
             have hchild : ft ∈ children env S := hft ft (by simp [fieldTypes])
             have hreach := reach_child hchild
             have hext2 := ext_of_evo hext evo3
             have hext1 := ext_of_evo hext2 evo2
-            obtain ⟨E, g1⟩ := hc ft a s c s1 T h1 hctx hext1 hfin (path_child hpath hreach)
+            obtain ⟨E, g1⟩ := hc ft a s c s1 T h1 hctx hext1 hfin hroot
               (noEmbedCycle_of_reach hsafe hreach) hgood
             have hfin1 := fin_of_evo hfin evo1
-            have hpath1 := path_of_evo hpath evo1
+            have hroot1 := rootOK_of_evo hroot evo1
             -- the `string` option
             have hstr : SeenGood env d s2 T ∧ underEmbed (expandN d env T) (norm c2) =
                 (if (str && quotedOK env ft) = true then pushQuoted (stdD d env ft a) else stdD d env ft a) := by
@@ -205,7 +296,7 @@ theorem fields_sem (env : Env) (f d : Nat) (hc : ACodec env f d) (hs : AStruct e
                 constructor
                 · rcases stringify_state _ env a ft c c2 s1 s2 h2 with rfl | ⟨p, hp⟩
                   · exact g1
-                  · exact (hc ft a s1 p s2 T hp hctx hext2 hfin1 (path_child hpath1 hreach)
+                  · exact (hc ft a s1 p s2 T hp hctx hext2 hfin1 hroot1
                       (noEmbedCycle_of_reach hsafe hreach) g1).2
                 · exact stringify_sem env f a ft c c2 s s1 s2 d T h1 h2 E
               · have hst' : str = false := by simpa using hst
@@ -219,8 +310,10 @@ theorem fields_sem (env : Env) (f d : Nat) (hc : ACodec env f d) (hs : AStruct e
                   intro x hx; rw [hx] at this; simp [plain] at this
                 · intro x hx; simp [norm] at hx
             obtain ⟨g2, hfield⟩ := hstr
-            obtain ⟨g3, heq⟩ := fields_sem env f d hc hs S a T hctx hsafe rest s2 r s3 h3 hftr hembr hext
-              (fin_of_evo hfin1 evo2) (path_of_evo hpath1 evo2) g2
+            have evo12 := evo1.trans evo2
+            obtain ⟨g3, heq⟩ := fields_sem env f d hc hs hl S a R T hctx hsafe rest s2 r s3 h3 hftr hembr hext
+              (fin_of_evo hfin evo12) (rootOK_of_evo hroot evo12) (rootIn_of_evo hrin evo12)
+              (chain_of_evo hchain evo12) g2
             refine ⟨g3, ?_⟩
             simp only [stdFieldsWith, h0', Bool.false_eq_true, if_false]
             rw [← hcl]
@@ -236,7 +329,7 @@ theorem seenGood_of_table {env : Env} {d : Nat} {s T : Seen} (htab : SeenGood en
 theorem kind_thread (env : Env) (f D : Nat) (hc : ACodec env f D) (hs : AStruct env f D) (t : TD) (a : Bool)
     (s s1 : Seen) (c1 : Choice) (T : Seen)
     (h : kindF (codecF f env) (structF f env) env t (under env t) a s = some (c1, s1))
-    (hctx : Ctx env T D) (hext : Ext s1 T) (hfin : Fin env s T) (hpath : Path env s t) (hsafe : NoEmbedCycle env t)
+    (hctx : Ctx env T D) (hext : Ext s1 T) (hfin : Fin env s T) (hroot : RootOK env s) (hsafe : NoEmbeddedCycle env t)
     (hgood : SeenGood env D s T) : SeenGood env D s1 T := by
   generalize hu : under env t = u at h
   cases u with
@@ -247,7 +340,7 @@ theorem kind_thread (env : Env) (f D : Nat) (hc : ACodec env f D) (hs : AStruct 
     | none => simp [h1] at h
     | some r =>
       obtain ⟨ce, s2⟩ := r; simp [h1] at h; obtain ⟨_, rfl⟩ := h
-      exact (hc e a s ce s2 T h1 hctx hext hfin (path_child hpath hch) (noEmbedCycle_of_reach hsafe hch) hgood).2
+      exact (hc e a s ce s2 T h1 hctx hext hfin hroot (noEmbedCycle_of_reach hsafe hch) hgood).2
   | slice e =>
     simp only [kindF] at h
     have hch : Reach env t e := reach_child (by simp [children, hu])
@@ -257,7 +350,7 @@ theorem kind_thread (env : Env) (f D : Nat) (hc : ACodec env f D) (hs : AStruct 
       | none => simp [h1] at h
       | some r =>
         obtain ⟨ce, s2⟩ := r; simp [h1] at h; obtain ⟨_, rfl⟩ := h
-        exact (hc e true s ce s2 T h1 hctx hext hfin (path_child hpath hch) (noEmbedCycle_of_reach hsafe hch) hgood).2
+        exact (hc e true s ce s2 T h1 hctx hext hfin hroot (noEmbedCycle_of_reach hsafe hch) hgood).2
   | ptr e =>
     simp only [kindF] at h
     have hch : Reach env t e := reach_child (by simp [children, hu])
@@ -265,7 +358,7 @@ theorem kind_thread (env : Env) (f D : Nat) (hc : ACodec env f D) (hs : AStruct 
     | none => simp [h1] at h
     | some r =>
       obtain ⟨ce, s2⟩ := r; simp [h1] at h; obtain ⟨_, rfl⟩ := h
-      exact (hc e true s ce s2 T h1 hctx hext hfin (path_child hpath hch) (noEmbedCycle_of_reach hsafe hch) hgood).2
+      exact (hc e true s ce s2 T h1 hctx hext hfin hroot (noEmbedCycle_of_reach hsafe hch) hgood).2
   | map k v =>
     simp only [kindF] at h
     have hch : Reach env t v := reach_child (by simp [children, hu])
@@ -285,14 +378,14 @@ theorem kind_thread (env : Env) (f D : Nat) (hc : ACodec env f D) (hs : AStruct 
           have hs1 : s1 = s2 := by
             cases kr <;> simp at h <;> rw [← h.2, hs3]
           subst hs1
-          exact (hc v false s vc s1 T h1 hctx hext hfin (path_child hpath hch) (noEmbedCycle_of_reach hsafe hch) hgood).2
+          exact (hc v false s vc s1 T h1 hctx hext hfin hroot (noEmbedCycle_of_reach hsafe hch) hgood).2
   | struct fs =>
     simp only [kindF] at h
-    cases h1 : structF f env t a s with
+    cases h1 : structF f env t a none s with
     | none => simp [h1] at h
     | some r =>
       obtain ⟨e, s2⟩ := r; simp [h1] at h; obtain ⟨_, rfl⟩ := h
-      exact (hs t a s e s2 T h1 (by simp [hu, isStructKind]) hctx hext hfin hpath hsafe hgood).1
+      exact (hs t a none s e s2 T h1 (by simp [hu, isStructKind]) hctx hext hfin hroot (fun R hR => by cases hR) hsafe hgood).1
   | prim k => cases k <;> simp [kindF] at h <;> rw [← h.2] <;> exact hgood
   | nil => simp [kindF] at h; rw [← h.2]; exact hgood
   | special _ => simp [kindF] at h; rw [← h.2]; exact hgood
@@ -311,10 +404,10 @@ theorem kind_exp (env : Env) (f d : Nat) (hc : ACodec env f d) (hs : AStruct env
     (s s1 : Seen) (c1 : Choice) (T : Seen)
     (h : kindF (codecF f env) (structF f env) env t (under env t) a s = some (c1, s1))
     (hfs : firstSwitch t = none) (hm : stdMarshal env t a = none)
-    (hctx : Ctx env T d) (htab : SeenGood env d T T) (hext : Ext s1 T) (hfin : Fin env s T) (hpath : Path env s t)
-    (hsafe : NoEmbedCycle env t) :
+    (hctx : Ctx env T d) (htab : SeenGood env d T T) (hext : Ext s1 T) (hfin : Fin env s T) (hroot : RootOK env s)
+    (hsafe : NoEmbeddedCycle env t) :
     expandN (d + 1) env T (norm c1) = stdD (d + 1) env t a := by
-  have evo := kind_evo env f (JsonCodecChoiceEvo.main env f).1 (JsonCodecChoiceEvo.main env f).2 t _ a s s1 c1 h
+  have evo := kind_evo env f (JsonCodecChoiceEvo.main env f).1 (JsonCodecChoiceEvo.main env f).2.1 t _ a s s1 c1 h
   have hgood : SeenGood env d s T := seenGood_of_table htab (ext_of_evo hext evo)
   rw [stdD_succ _ _ _ _ (firstSwitch_none_not_opaque t hfs)]
   simp only [hm]
@@ -335,7 +428,7 @@ theorem kind_exp (env : Env) (f d : Nat) (hc : ACodec env f d) (hs : AStruct env
     | none => simp [h1] at h
     | some r =>
       obtain ⟨ce, s2⟩ := r; simp [h1] at h; obtain ⟨rfl, rfl⟩ := h
-      have E := (hc e a s ce s2 T h1 hctx hext hfin (path_child hpath hch) (noEmbedCycle_of_reach hsafe hch) hgood).1
+      have E := (hc e a s ce s2 T h1 hctx hext hfin hroot (noEmbedCycle_of_reach hsafe hch) hgood).1
       simp [norm, expandN, resolve, E]
   | slice e =>
     simp only [kindF] at h
@@ -351,7 +444,7 @@ theorem kind_exp (env : Env) (f d : Nat) (hc : ACodec env f d) (hs : AStruct env
       | none => simp [h1] at h
       | some r =>
         obtain ⟨ce, s2⟩ := r; simp [h1] at h; obtain ⟨rfl, rfl⟩ := h
-        have E := (hc e true s ce s2 T h1 hctx hext hfin (path_child hpath hch) (noEmbedCycle_of_reach hsafe hch) hgood).1
+        have E := (hc e true s ce s2 T h1 hctx hext hfin hroot (noEmbedCycle_of_reach hsafe hch) hgood).1
         simp [norm, expandN, resolve, E]
   | ptr e =>
     simp only [kindF] at h
@@ -360,7 +453,7 @@ theorem kind_exp (env : Env) (f d : Nat) (hc : ACodec env f d) (hs : AStruct env
     | none => simp [h1] at h
     | some r =>
       obtain ⟨ce, s2⟩ := r; simp [h1] at h; obtain ⟨rfl, rfl⟩ := h
-      have E := (hc e true s ce s2 T h1 hctx hext hfin (path_child hpath hch) (noEmbedCycle_of_reach hsafe hch) hgood).1
+      have E := (hc e true s ce s2 T h1 hctx hext hfin hroot (noEmbedCycle_of_reach hsafe hch) hgood).1
       rcases codec_plain env f e true s s2 ce h1 with ⟨hp, hne⟩ | ⟨sp, rfl, rfl⟩
       · have hpn := norm_plain ce hp
         simp only [norm]
@@ -397,7 +490,7 @@ theorem kind_exp (env : Env) (f d : Nat) (hc : ACodec env f d) (hs : AStruct env
           have hs1 : s1 = s2 := by
             cases kr <;> simp at h <;> rw [← h.2, hs3]
           subst hs1
-          have E := (hc v false s vc s1 T h1 hctx hext hfin (path_child hpath hch) (noEmbedCycle_of_reach hsafe hch) hgood).1
+          have E := (hc v false s vc s1 T h1 hctx hext hfin hroot (noEmbedCycle_of_reach hsafe hch) hgood).1
           show _ = (match stdKey env k with
             | none => Choice.unsupported
             | some kc => kc.map (stdD d env v false))
@@ -423,12 +516,12 @@ theorem kind_exp (env : Env) (f d : Nat) (hc : ACodec env f d) (hs : AStruct env
             simp [expandN, resolve, E]
   | struct fs =>
     simp only [kindF] at h
-    cases h1 : structF f env t a s with
+    cases h1 : structF f env t a none s with
     | none => simp [h1] at h
     | some r =>
       obtain ⟨e, s2⟩ := r; simp [h1] at h; obtain ⟨rfl, rfl⟩ := h
       have hsk : isStructKind (under env t) = true := by simp [hu, isStructKind]
-      have hfg := (hs t a s e s2 T h1 hsk hctx hext hfin hpath hsafe hgood).2
+      have hfg := (hs t a none s e s2 T h1 hsk hctx hext hfin hroot (fun R hR => by cases hR) hsafe hgood).2
       have hstd : stdFields d env t a =
           stdFieldsWith (stdD d env) (stdEmbedded (stdD d env) env (embedFuel env t) [t]) env a fs := by
         unfold stdFields; rw [hfo fs rfl]
@@ -440,9 +533,9 @@ theorem kind_exp (env : Env) (f d : Nat) (hc : ACodec env f d) (hs : AStruct env
         unfold FG at this
         simp only at this
         simp [Entry.toChoice, norm, expandN, resolve, this]
-      | building =>
-        have hb := struct_building env f t a s s2 h1
-        obtain ⟨fs', hT⟩ := hfin (t, a) hb hsk
+      | building r =>
+        have hb := (struct_building env f t a none s s2 r h1).2
+        obtain ⟨fs', hT⟩ := hfin (t, a) r hb hsk
         have := htab (t, a) fs' hT hsk
         unfold FG at this
         simp only at this
@@ -457,7 +550,7 @@ theorem codec_unfold (env : Env) (f : Nat) (t : TD) (a : Bool) (s s' : Seen) (c 
     (firstSwitch t = none ∧ (isRef t && isComposite (under env t)) = true ∧ (s.find (t, false)).isSome = true ∧
       c = .recur t a ∧ s' = s) ∨
     (firstSwitch t = none ∧ (isRef t && isComposite (under env t)) = true ∧ s.find (t, false) = none ∧
-      ∃ c1 s1, kindF (codecF f env) (structF f env) env t (under env t) a (s.set (t, false) .building) = some (c1, s1) ∧
+      ∃ c1 s1, kindF (codecF f env) (structF f env) env t (under env t) a (s.set (t, false) (.building (t, false))) = some (c1, s1) ∧
         c = marshalerOverride env t a c1 ∧ s' = s1.erase (t, false)) ∨
     (firstSwitch t = none ∧ (isRef t && isComposite (under env t)) = false ∧
       ∃ c1, kindF (codecF f env) (structF f env) env t (under env t) a s = some (c1, s') ∧
@@ -474,7 +567,7 @@ theorem codec_unfold (env : Env) (f : Nat) (t : TD) (a : Bool) (s s' : Seen) (c 
       | some e0 => simp [hf] at h; exact .inl ⟨rfl, hn, by simp, h.1.symm, h.2.symm⟩
       | none =>
         simp only [hf, Option.isSome_none, Bool.false_eq_true, if_false] at h
-        cases hk : kindF (codecF f env) (structF f env) env t (under env t) a (s.set (t, false) .building) with
+        cases hk : kindF (codecF f env) (structF f env) env t (under env t) a (s.set (t, false) (.building (t, false))) with
         | none => simp [hk] at h
         | some r =>
           obtain ⟨c1, s1⟩ := r
@@ -498,26 +591,29 @@ theorem composite_not_struct (env : Env) (t : TD) (h : (isRef t && isComposite (
 /-- the invariant across the registration of a named composite type -/
 theorem named_pre (env : Env) (D : Nat) (t : TD) (s s1 T : Seen)
     (hn : (isRef t && isComposite (under env t)) = true) (habs : s.find (t, false) = none)
-    (evo : Evo (s.set (t, false) .building) s1) (hext : Ext (s1.erase (t, false)) T) (hfin : Fin env s T)
-    (hpath : Path env s t) :
-    Ext s1 T ∧ Fin env (s.set (t, false) .building) T ∧ Path env (s.set (t, false) .building) t ∧
-    (SeenGood env D s T → SeenGood env D (s.set (t, false) .building) T) ∧
+    (evo : Evo (s.set (t, false) (.building (t, false))) s1) (hext : Ext (s1.erase (t, false)) T) (hfin : Fin env s T)
+    (hroot : RootOK env s) :
+    Ext s1 T ∧ Fin env (s.set (t, false) (.building (t, false))) T ∧ RootOK env (s.set (t, false) (.building (t, false))) ∧
+    (SeenGood env D s T → SeenGood env D (s.set (t, false) (.building (t, false))) T) ∧
     (SeenGood env D s1 T → SeenGood env D (s1.erase (t, false)) T) := by
   have hnk := composite_not_struct env t hn
-  have hb1 : s1.find (t, false) = some .building := (evo.2 _).mpr (find_set_self _ _ _)
+  have hb1 : s1.find (t, false) = some (.building (t, false)) := (evo.2 _ _).mpr (find_set_self _ _ _)
   refine ⟨?_, ?_, ?_, ?_, ?_⟩
   · intro k fs hk
     have hne : k ≠ (t, false) := by intro e; subst e; rw [hb1] at hk; cases hk
     apply hext
     rw [find_erase]; simp [hne, hk]
-  · intro k hk hsk
+  · intro k r hk hsk
     by_cases hke : k = (t, false)
     · subst hke; exact absurd hsk hnk
-    · rw [find_set_ne _ _ _ _ hke] at hk; exact hfin k hk hsk
-  · intro k hk hsk
+    · rw [find_set_ne _ _ _ _ hke] at hk; exact hfin k r hk hsk
+  · intro k r hk hsk
     by_cases hke : k = (t, false)
     · subst hke; exact absurd hsk hnk
-    · rw [find_set_ne _ _ _ _ hke] at hk; exact hpath k hk hsk
+    · rw [find_set_ne _ _ _ _ hke] at hk
+      obtain ⟨h1, r', h2⟩ := hroot k r hk hsk
+      have hre : r ≠ (t, false) := by intro e; subst e; exact hnk h1
+      exact ⟨h1, r', by rw [find_set_ne _ _ _ _ hre]; exact h2⟩
   · intro hg k fs hk hsk
     by_cases hke : k = (t, false)
     · subst hke; rw [find_set_self] at hk; cases hk
@@ -530,16 +626,16 @@ theorem named_pre (env : Env) (D : Nat) (t : TD) (s s1 T : Seen)
 
 theorem codec_thread (env : Env) (f D : Nat) (hc : ACodec env f D) (hs : AStruct env f D) (t : TD) (a : Bool)
     (s s' : Seen) (c : Choice) (T : Seen) (h : codecF (f + 1) env t a s = some (c, s'))
-    (hctx : Ctx env T D) (hext : Ext s' T) (hfin : Fin env s T) (hpath : Path env s t) (hsafe : NoEmbedCycle env t)
+    (hctx : Ctx env T D) (hext : Ext s' T) (hfin : Fin env s T) (hroot : RootOK env s) (hsafe : NoEmbeddedCycle env t)
     (hgood : SeenGood env D s T) : SeenGood env D s' T := by
   rcases codec_unfold env f t a s s' c h with ⟨_, rfl⟩ | ⟨_, _, _, _, rfl⟩ | ⟨_, hn, habs, c1, s1, hk, _, rfl⟩ |
       ⟨_, hn, c1, hk, _⟩
   · exact hgood
   · exact hgood
-  · have evo := kind_evo env f (JsonCodecChoiceEvo.main env f).1 (JsonCodecChoiceEvo.main env f).2 t _ a _ s1 c1 hk
-    obtain ⟨e1, e2, e3, e4, e5⟩ := named_pre env D t s s1 T hn habs evo hext hfin hpath
+  · have evo := kind_evo env f (JsonCodecChoiceEvo.main env f).1 (JsonCodecChoiceEvo.main env f).2.1 t _ a _ s1 c1 hk
+    obtain ⟨e1, e2, e3, e4, e5⟩ := named_pre env D t s s1 T hn habs evo hext hfin hroot
     exact e5 (kind_thread env f D hc hs t a _ s1 c1 T hk hctx e1 e2 e3 hsafe (e4 hgood))
-  · exact kind_thread env f D hc hs t a s s' c1 T hk hctx hext hfin hpath hsafe hgood
+  · exact kind_thread env f D hc hs t a s s' c1 T hk hctx hext hfin hroot hsafe hgood
 
 theorem noBackref_composite (codec : CodecFn) (strct : StructFn) (env : Env) (t u : TD) (a : Bool) (s s1 : Seen)
     (c1 : Choice) (hcomp : isComposite u = true) (h : kindF codec strct env t u a s = some (c1, s1)) :
@@ -608,8 +704,8 @@ theorem expandN_recur (env : Env) (T : Seen) (d : Nat) (t : TD) (a : Bool)
 
 theorem codec_exp (env : Env) (f d : Nat) (hc : ACodec env f d) (hs : AStruct env f d) (t : TD) (a : Bool)
     (s s' : Seen) (c : Choice) (T : Seen) (h : codecF (f + 1) env t a s = some (c, s'))
-    (hctx : Ctx env T d) (htab : SeenGood env d T T) (hext : Ext s' T) (hfin : Fin env s T) (hpath : Path env s t)
-    (hsafe : NoEmbedCycle env t)
+    (hctx : Ctx env T d) (htab : SeenGood env d T T) (hext : Ext s' T) (hfin : Fin env s T) (hroot : RootOK env s)
+    (hsafe : NoEmbeddedCycle env t)
     (hrec : (isRef t && isComposite (under env t)) = true → (s.find (t, false)).isSome = true → MainFor env (d + 1) t a) :
     expandN (d + 1) env T (norm c) = stdD (d + 1) env t a := by
   have hov : ∀ c1, firstSwitch t = none →
@@ -631,15 +727,16 @@ theorem codec_exp (env : Env) (f d : Nat) (hc : ACodec env f d) (hs : AStruct en
     rw [← this]
     simp only [norm]
     exact expandN_recur env T d t a hn
-  · have evo := kind_evo env f (JsonCodecChoiceEvo.main env f).1 (JsonCodecChoiceEvo.main env f).2 t _ a _ s1 c1 hk
-    obtain ⟨e1, e2, e3, _, _⟩ := named_pre env d t s s1 T hn habs evo hext hfin hpath
+  · have evo := kind_evo env f (JsonCodecChoiceEvo.main env f).1 (JsonCodecChoiceEvo.main env f).2.1 t _ a _ s1 c1 hk
+    obtain ⟨e1, e2, e3, _, _⟩ := named_pre env d t s s1 T hn habs evo hext hfin hroot
     exact hov c1 hfs fun hm => kind_exp env f d hc hs t a _ s1 c1 T hk hfs hm hctx htab e1 e2 e3 hsafe
-  · exact hov c1 hfs fun hm => kind_exp env f d hc hs t a s s' c1 T hk hfs hm hctx htab hext hfin hpath hsafe
+  · exact hov c1 hfs fun hm => kind_exp env f d hc hs t a s s' c1 T hk hfs hm hctx htab hext hfin hroot hsafe
 
 /-! ## the induction on the fuel -/
 
-theorem struct_step (env : Env) (f D : Nat) (hc : ACodec env f D) (hs : AStruct env f D) : AStruct env (f + 1) D := by
-  intro t a s e s' T h hsk hctx hext hfin hpath hsafe hgood
+theorem struct_step (env : Env) (f D : Nat) (hc : ACodec env f D) (hs : AStruct env f D) (hl : AList env f D) :
+    AStruct env (f + 1) D := by
+  intro t a root s e s' T h hsk hctx hext hfin hroot hrt hsafe hgood
   rw [structF] at h
   cases hf : s.find (t, a) with
   | some e0 =>
@@ -650,35 +747,62 @@ theorem struct_step (env : Env) (f D : Nat) (hc : ACodec env f D) (hs : AStruct 
     exact hgood (t, a) fs hf hsk
   | none =>
     simp only [hf] at h
-    cases hfl : fieldsF (codecF f env) (structF f env) env a (fieldsOf env t) (s.set (t, a) .building) with
+    generalize hR : root.getD (t, a) = R at h
+    cases hfl : fieldsF (codecF f env) (structF f env) (listF f env) env a R (fieldsOf env t)
+        (s.set (t, a) (.building R)) with
     | none => simp [hfl] at h
     | some r =>
       obtain ⟨fs, s2⟩ := r
       simp [hfl] at h
       obtain ⟨rfl, rfl⟩ := h
-      have evo := fields_evo _ _ (JsonCodecChoiceEvo.main env f).1 (JsonCodecChoiceEvo.main env f).2 env a _ _ fs s2 hfl
-      have hb2 : s2.find (t, a) = some .building := (evo.2 _).mpr (find_set_self _ _ _)
+      have hE := JsonCodecChoiceEvo.main env f
+      have evo := fields_evo _ _ _ hE.1 hE.2.1 hE.2.2 env a R _ _ fs s2 hfl
+      have hb2 : s2.find (t, a) = some (.building R) := (evo.2 _ _).mpr (find_set_self _ _ _)
       have hext2 : Ext s2 T := by
         intro k fs' hk
         have hne : k ≠ (t, a) := by intro e; subst e; rw [hb2] at hk; cases hk
         apply hext; rw [find_set_ne _ _ _ _ hne]; exact hk
-      have hfin' : Fin env (s.set (t, a) .building) T := by
-        intro k hk hsk'
+      have hfin' : Fin env (s.set (t, a) (.building R)) T := by
+        intro k r' hk hsk'
         by_cases hke : k = (t, a)
         · subst hke; exact ⟨fs, hext _ fs (find_set_self _ _ _)⟩
-        · rw [find_set_ne _ _ _ _ hke] at hk; exact hfin k hk hsk'
-      have hpath' : Path env (s.set (t, a) .building) t := by
+        · rw [find_set_ne _ _ _ _ hke] at hk; exact hfin k r' hk hsk'
+      -- the root: this struct type itself, or the root it is embedded in
+      have hRcases : (root = none ∧ R = (t, a)) ∨ (root = some R) := by
+        cases root with
+        | none => left; exact ⟨rfl, by simpa using hR.symm⟩
+        | some R' => right; simp at hR; rw [hR]
+      have hrin' : RootIn env (s.set (t, a) (.building R)) R := by
+        rcases hRcases with ⟨_, rfl⟩ | hsome
+        · exact ⟨hsk, _, find_set_self _ _ _⟩
+        · obtain ⟨⟨h1, r', h2⟩, _⟩ := hrt R hsome
+          have hne : R ≠ (t, a) := by intro e; subst e; rw [hf] at h2; cases h2
+          exact ⟨h1, r', by rw [find_set_ne _ _ _ _ hne]; exact h2⟩
+      have hroot' : RootOK env (s.set (t, a) (.building R)) := by
+        intro k r' hk hsk'
+        by_cases hke : k = (t, a)
+        · subst hke; rw [find_set_self] at hk; cases hk; exact hrin'
+        · rw [find_set_ne _ _ _ _ hke] at hk
+          obtain ⟨h1, r'', h2⟩ := hroot k r' hk hsk'
+          have hne : r' ≠ (t, a) := by intro e; subst e; rw [hf] at h2; cases h2
+          exact ⟨h1, r'', by rw [find_set_ne _ _ _ _ hne]; exact h2⟩
+      have hchain' : Chain env (s.set (t, a) (.building R)) R t := by
         intro k hk hsk'
         by_cases hke : k = (t, a)
         · subst hke; exact .refl _
-        · rw [find_set_ne _ _ _ _ hke] at hk; exact hpath k hk hsk'
-      have hgood' : SeenGood env D (s.set (t, a) .building) T := by
+        · rw [find_set_ne _ _ _ _ hke] at hk
+          rcases hRcases with ⟨_, rfl⟩ | hsome
+          · -- nothing is marked with a key that is not in `seen`
+            obtain ⟨_, r'', h2⟩ := hroot k _ hk hsk'
+            rw [hf] at h2; cases h2
+          · exact (hrt R hsome).2 k hk hsk'
+      have hgood' : SeenGood env D (s.set (t, a) (.building R)) T := by
         intro k fs' hk hsk'
         by_cases hke : k = (t, a)
         · subst hke; rw [find_set_self] at hk; cases hk
         · rw [find_set_ne _ _ _ _ hke] at hk; exact hgood k fs' hk hsk'
-      obtain ⟨g, heq⟩ := fields_sem env f D hc hs t a T hctx hsafe (fieldsOf env t) _ fs s2 hfl
-        (fun ft hft => fieldTypes_children env t ft hft) (fun typ htyp => htyp) hext2 hfin' hpath' hgood'
+      obtain ⟨g, heq⟩ := fields_sem env f D hc hs hl t a R T hctx hsafe (fieldsOf env t) _ fs s2 hfl
+        (fun ft hft => fieldTypes_children env t ft hft) (fun typ htyp => htyp) hext2 hfin' hroot' hrin' hchain' hgood'
       have hfg : FG env D T fs (t, a) := heq
       refine ⟨?_, fun fs' he => by cases he; exact hfg⟩
       intro k fs' hk hsk'
@@ -686,18 +810,26 @@ theorem struct_step (env : Env) (f D : Nat) (hc : ACodec env f D) (hs : AStruct 
       · subst hke; rw [find_set_self] at hk; cases hk; exact hfg
       · rw [find_set_ne _ _ _ _ hke] at hk; exact g k fs' hk hsk'
 
-theorem mainA (env : Env) : ∀ f D, ACodec env f D ∧ AStruct env f D
-  | 0, D => ⟨fun t a s c s' T h => by simp [codecF] at h, fun t a s e s' T h => by simp [structF] at h⟩
+theorem list_step (env : Env) (f D : Nat) (hc : ACodec env f D) (hs : AStruct env f D) (hl : AList env f D) :
+    AList env (f + 1) D := by
+  intro t a R s fs s' T h hsk hctx hext hfin hroot hrin hchain hsafe hgood
+  rw [listF] at h
+  exact fields_sem env f D hc hs hl t a R T hctx hsafe (fieldsOf env t) s fs s' h
+    (fun ft hft => fieldTypes_children env t ft hft) (fun typ htyp => htyp) hext hfin hroot hrin hchain hgood
+
+theorem mainA (env : Env) : ∀ f D, ACodec env f D ∧ AStruct env f D ∧ AList env f D
+  | 0, D => ⟨fun t a s c s' T h => by simp [codecF] at h, fun t a root s e s' T h => by simp [structF] at h,
+      fun t a R s fs s' T h => by simp [listF] at h⟩
   | f + 1, D => by
     have ih := mainA env f
-    refine ⟨?_, struct_step env f D (ih D).1 (ih D).2⟩
-    intro t a s c s' T h hctx hext hfin hpath hsafe hgood
-    refine ⟨?_, codec_thread env f D (ih D).1 (ih D).2 t a s s' c T h hctx hext hfin hpath hsafe hgood⟩
+    refine ⟨?_, struct_step env f D (ih D).1 (ih D).2.1 (ih D).2.2, list_step env f D (ih D).1 (ih D).2.1 (ih D).2.2⟩
+    intro t a s c s' T h hctx hext hfin hroot hsafe hgood
+    refine ⟨?_, codec_thread env f D (ih D).1 (ih D).2.1 t a s s' c T h hctx hext hfin hroot hsafe hgood⟩
     cases D with
     | zero => simp [expandN, stdD]
     | succ d =>
-      exact codec_exp env f d (ih d).1 (ih d).2 t a s s' c T h (hctx.mono (by omega)) (hctx.less d (by omega)) hext hfin
-        hpath hsafe (fun _ _ => hctx.main (d + 1) (Nat.le_refl _) t a hsafe)
+      exact codec_exp env f d (ih d).1 (ih d).2.1 t a s s' c T h (hctx.mono (by omega)) (hctx.less d (by omega)) hext hfin
+        hroot hsafe (fun _ _ => hctx.main (d + 1) (Nat.le_refl _) t a hsafe)
 
 /-! ## the top-level construction -/
 
@@ -723,8 +855,8 @@ theorem mainLe (env : Env) : ∀ d, MainLe env d
       generalize hc0 : (choose env t a).1 = c0 at hch
       have hch' : codecF (fuelFor env t) env t a [] = some (c0, T) := by rw [hch, ← hT, ← hc0]
       have hext : Ext T T := fun _ _ h => h
-      have hfin : Fin env [] T := fun k hk _ => by simp [Seen.find] at hk
-      have hpath : Path env [] t := fun k hk _ => by simp [Seen.find] at hk
+      have hfin : Fin env [] T := fun k r hk _ => by simp [Seen.find] at hk
+      have hroot : RootOK env [] := fun k r hk _ => by simp [Seen.find] at hk
       have hempty : ∀ D, SeenGood env D [] T := fun D k fs hk _ => by simp [Seen.find] at hk
       -- the final table is good at every depth ≤ d
       have htab : ∀ D, D ≤ d → SeenGood env D T T := by
@@ -733,19 +865,19 @@ theorem mainLe (env : Env) : ∀ d, MainLe env d
         | _ D ihD =>
           intro hD
           have hctx : Ctx env T D := ⟨fun D' hD' => ihD D' hD' (by omega), fun D' hD' => ihd D' (by omega)⟩
-          exact ((mainA env (fuelFor env t) D).1 t a [] c0 T T hch' hctx hext hfin hpath hsafe (hempty D)).2
+          exact ((mainA env (fuelFor env t) D).1 t a [] c0 T T hch' hctx hext hfin hroot hsafe (hempty D)).2
       have hctx : Ctx env T d := ⟨fun D' hD' => htab D' (by omega), ihd⟩
       rw [hf] at hch'
       unfold MainFor
       rw [hT, hc0]
-      exact codec_exp env f d (mainA env f d).1 (mainA env f d).2 t a [] T c0 T hch' hctx (htab d (Nat.le_refl _)) hext hfin
-        hpath hsafe (fun _ hfound => by simp [Seen.find] at hfound)
+      exact codec_exp env f d (mainA env f d).1 (mainA env f d).2.1 t a [] T c0 T hch' hctx (htab d (Nat.le_refl _)) hext hfin
+        hroot hsafe (fun _ hfound => by simp [Seen.find] at hfound)
 
-/-- **choose_eq_std**: for every environment of definitions, every type in which no struct embeds a struct type that
-contains the embedding struct again, both addressabilities and every depth, the encoder tree `constructCodec` builds —
+/-- **choose_eq_std**: for every environment of definitions, every type in which no struct lies on a cycle of EMBEDDED
+structs, both addressabilities and every depth, the encoder tree `constructCodec` builds —
 back references through `seen` resolved in the final `seen`, back references to named slice/map/pointer/array types
 built on first use — is the tree of encoding/json's rule. -/
-theorem choose_eq_std (env : Env) (t : TD) (a : Bool) (h : NoEmbedCycle env t) (d : Nat) :
+theorem choose_eq_std (env : Env) (t : TD) (a : Bool) (h : NoEmbeddedCycle env t) (d : Nat) :
     expandD d env (choose env t a).2 (choose env t a).1 = stdD d env t a :=
   mainLe env d d (Nat.le_refl _) t a h
 
